@@ -13,6 +13,8 @@ import (
 const (
 	OpPairReset uint8 = 200 + iota // Reset the first world and pair it with a fresh one
 	OpPairLoad                     // A = variant: dump the first world and load into a fresh (0..2: capacity increment 1,2,128) or reset (3) world
+	OpPairDump                     // take a dump and keep it while the world goes on
+	OpPairLoadKept                 // load the kept dump into a fresh world: it must reproduce the world as it was when the dump was taken
 )
 
 // PairCfg is a scenario that explores a base scenario, and after a Reset (or dump/load) continues in lock-step
@@ -34,6 +36,10 @@ func (p *PairCfg) OpKind(op wx.Op) string {
 		return "Reset+pair"
 	case OpPairLoad:
 		return "Dump+Load"
+	case OpPairDump:
+		return "Dump(kept)"
+	case OpPairLoadKept:
+		return "Load(kept dump)"
 	}
 	return p.Base.OpKind(op)
 }
@@ -45,6 +51,12 @@ func (p *PairCfg) OpString(op wx.Op) string {
 		return "Reset (then continue in lock-step with a fresh world having the same registrations)"
 	case OpPairLoad:
 		return fmt.Sprintf("DumpEntities, LoadEntities into %s (then continue in lock-step)", [...]string{"a fresh world (capacity increment 1)", "a fresh world (capacity increment 2)", "a fresh world (capacity increment 128)", "a used and reset world"}[op.A])
+	}
+	if op.K == OpPairDump {
+		return "d := DumpEntities() (kept while the world goes on)"
+	}
+	if op.K == OpPairLoadKept {
+		return "LoadEntities(&d) into a fresh world"
 	}
 	return p.Base.OpString(op)
 }
@@ -67,6 +79,11 @@ type PairRun struct {
 	resID   ecs.ResID
 	outcome string
 	dead    bool
+	// kept dump
+	kept      *ecs.EntityDump
+	keptCopy  []byte
+	keptModel *Model
+	keptAge   int
 }
 
 // Outcome implements wx.Run.
@@ -75,6 +92,13 @@ func (r *PairRun) Outcome() string { return r.outcome }
 // Key implements wx.Run.
 func (r *PairRun) Key(buf []byte) []byte {
 	buf = r.a.Key(buf)
+	if r.kept != nil {
+		buf = append(buf, "||K"...)
+		buf = append(buf, r.keptCopy...)
+		if r.keptAge > 0 {
+			buf = append(buf, '+')
+		}
+	}
 	if r.b != nil {
 		buf = append(buf, "||B"...)
 		buf = r.b.Key(buf)
@@ -96,6 +120,11 @@ func (r *PairRun) Enabled() []wx.Op {
 		if r.b == nil {
 			for v := int8(0); v < 4; v++ {
 				out = append(out, wx.Op{K: OpPairLoad, A: v})
+			}
+			if r.kept == nil {
+				out = append(out, wx.Op{K: OpPairDump})
+			} else if r.keptAge > 0 {
+				out = append(out, wx.Op{K: OpPairLoadKept})
 			}
 		}
 	} else if len(r.a.m.Slots) > 0 || r.b == nil {
@@ -119,6 +148,19 @@ func (r *PairRun) Apply(op wx.Op) wx.Result {
 		return r.applyReset()
 	case OpPairLoad:
 		return r.applyLoad(int(op.A))
+	case OpPairDump:
+		d := r.a.w.DumpEntities()
+		r.kept = &d
+		r.keptCopy, _ = json.Marshal(&d)
+		r.keptModel = r.a.m.clone()
+		r.keptAge = 0
+		r.outcome = "dump"
+		return wx.Result{}
+	case OpPairLoadKept:
+		return r.applyLoadKept()
+	}
+	if r.kept != nil {
+		r.keptAge++
 	}
 	ra := r.a.Apply(op)
 	r.outcome = r.a.outcome
@@ -288,6 +330,27 @@ func (r *PairRun) applyLoad(variant int) wx.Result {
 	}
 	r.b = b
 	return wx.Result{}
+}
+
+// applyLoadKept loads a dump that was taken earlier: a dump is a snapshot.
+func (r *PairRun) applyLoadKept() wx.Result {
+	r.outcome = "load-kept"
+	now, _ := json.Marshal(r.kept)
+	if string(now) != string(r.keptCopy) {
+		return r.fail("load:dump-not-a-snapshot", fmt.Sprintf("a dump changed while the dumped world was used further: was %s, is %s", r.keptCopy, now))
+	}
+	b := NewRun(r.a.cfg)
+	if pv := catch(func() { b.w.LoadEntities(r.kept) }); pv != nil {
+		return r.fail("load:panic", fmt.Sprintf("LoadEntities of a kept dump into a fresh world panicked: %v", pv))
+	}
+	for i := range r.keptModel.Slots {
+		e := &r.keptModel.Slots[i]
+		if got := b.w.Alive(e.H); got != e.Alive {
+			return r.fail("load:kept-alive", fmt.Sprintf("after loading a kept dump Alive(%v) = %t, but it was %t when the dump was taken", e.H, got, e.Alive))
+		}
+	}
+	r.dead = true
+	return wx.Result{Prune: true}
 }
 
 func catch(f func()) (pv interface{}) {
